@@ -42,7 +42,10 @@ Inductive ccase :=
 | CCss (name : str) (enc : option str) (dec : option (N * N * N))  (* rgb2hex(name) ; hex2rgb of that *)
 | CHexa (i : hinput) (out : option (option str))       (* hexa_color(i): None = raised, Some None = returned None *)
 | CUnitStr (d : dec) (u : str) (enc : str) (back : option (dec * str))   (* str(Unit(d, u)) ; Unit(that) as (value.as_tuple(), unit) *)
-| CUnitDec (t : str) (out : option (dec * str)).       (* Unit(t) *)
+| CUnitDec (t : str) (out : option (dec * str))        (* Unit(t) *)
+| CUnitFloat (r : str) (out : option dec)              (* Unit(float with repr r).value *)
+| CUnitConv (d : dec) (u : str) (dpi : Z) (out : option Z)   (* Unit(d, u).convert("px", dpi).value, None = raised *)
+| CBoolEnc (i : binput) (out : option str).            (* Boolean.encode on any argument *)
 
 (* codes:  1 round trip / decoded value wrong   2 encoded string outside the lexical form   3 encoder differs from the model
            4 decoder differs from the model (accepts what it must reject, rejects what it must read, or another value)
@@ -135,6 +138,13 @@ Definition chk18 (css : list (str * (Z * Z * Z))) (c : ccase) : nat :=
       else if negb (unit_lexical enc) then 2
       else if negb (str_eqb enc (unit_str d u)) then 3
       else if negb (optunit_eqb back (unit_parse enc)) then 4 else 0
+  | CUnitFloat r out => match out, unit_of_float r with Some a, Some b => if dec_eqb a b then 0 else 3 | None, None => 0 | _, _ => 3 end
+  | CUnitConv d u dpi out => match out, unit_convert_px d u dpi with Some a, Some b => if (a =? b)%Z then 0 else 3 | None, None => 0 | _, _ => 3 end
+  | CBoolEnc i out =>
+      match out with
+      | Some t => if negb (bool_lexical t) then 2 else if optstr_eqb out (bool_encode_any i) then 0 else 3
+      | None => if optstr_eqb out (bool_encode_any i) then 0 else 3
+      end
   | CUnitDec t out =>
       match out with
       | Some v => if negb (unit_lexical t) then 2 else if optunit_eqb out (unit_parse t) then 0 else 1
